@@ -15,8 +15,8 @@ def ROUTE(line):
     return "c17"
 
 
-CFGS17 = ["8x1", "8x2", "8x3", "8x5", "8x17", "16x1", "16x3", "16x4", "32x2", "32x3", "64x1", "64x2", "64x3", "64x16"]
-QUICK17 = ["8x1", "8x3", "8x5", "16x3", "32x2", "64x1", "64x2", "64x3", "8x17", "64x16"]
+CFGS17 = ["8x1", "8x2", "8x3", "8x5", "8x17", "8x64", "16x1", "16x3", "16x4", "32x2", "32x3", "64x1", "64x2", "64x3", "64x16"]
+QUICK17 = ["8x1", "8x3", "8x5", "16x3", "32x2", "64x1", "64x2", "64x3", "8x17", "64x16", "8x64"]
 FORMS = ["vv", "vr", "rv", "rr", "as", "asr", "inh"]
 SFORMS = ["vv", "vr", "rv", "rr", "as", "asr"]
 PRIM = {"u8": (8, False), "u16": (16, False), "u32": (32, False), "u64": (64, False), "u128": (128, False), "usize": (64, False),
